@@ -20,6 +20,7 @@ import (
 
 	"google.golang.org/genproto/googleapis/api/annotations"
 	"google.golang.org/grpc"
+	"google.golang.org/grpc/stats"
 	"google.golang.org/protobuf/proto"
 	"google.golang.org/protobuf/reflect/protoreflect"
 	"google.golang.org/protobuf/types/dynamicpb"
@@ -67,6 +68,34 @@ func theWorld() *dyn.World {
 
 type TCase struct {
 	Header string `json:"header"`
+	Opts   int    `json:"opts"` // bit 0: a stats handler is installed, bit 1: pass-through interceptors (neither may detach the handler's context)
+}
+
+type nopStats struct{}
+
+func (nopStats) TagRPC(ctx context.Context, _ *stats.RPCTagInfo) context.Context { return ctx }
+func (nopStats) HandleRPC(context.Context, stats.RPCStats)                       {}
+func (nopStats) TagConn(ctx context.Context, _ *stats.ConnTagInfo) context.Context {
+	return ctx
+}
+func (nopStats) HandleConn(context.Context, stats.ConnStats) {}
+
+// muxOpts are the options under which deadlines and cancellation must still reach the handler.
+func muxOpts(w *dyn.World, bits int) []larking.MuxOption {
+	opts := []larking.MuxOption{larking.FilesOption(w.Files)}
+	if bits&1 != 0 {
+		opts = append(opts, larking.StatsOption(nopStats{}))
+	}
+	if bits&2 != 0 {
+		opts = append(opts,
+			larking.UnaryServerInterceptorOption(func(ctx context.Context, req any, info *grpc.UnaryServerInfo, h grpc.UnaryHandler) (any, error) {
+				return h(ctx, req)
+			}),
+			larking.StreamServerInterceptorOption(func(srv any, ss grpc.ServerStream, info *grpc.StreamServerInfo, h grpc.StreamHandler) error {
+				return h(srv, ss)
+			}))
+	}
+	return opts
 }
 
 var units = map[byte]time.Duration{'H': time.Hour, 'M': time.Minute, 'S': time.Second, 'm': time.Millisecond, 'u': time.Microsecond, 'n': time.Nanosecond}
@@ -107,7 +136,7 @@ func CheckTimeout(c TCase) []evid.Violation {
 		return []evid.Violation{evid.V(clause, "timeout:"+s, f, a...)}
 	}
 	w := theWorld()
-	mux, err := larking.NewMux(larking.FilesOption(w.Files))
+	mux, err := larking.NewMux(muxOpts(w, c.Opts)...)
 	if err != nil {
 		panic(err)
 	}
@@ -202,7 +231,7 @@ func genTimeout(t *rapid.T) string {
 
 func TestPropTimeout(t *testing.T) {
 	rapid.Check(t, func(t *rapid.T) {
-		c := TCase{Header: genTimeout(t)}
+		c := TCase{Header: genTimeout(t), Opts: rapid.SampledFrom([]int{0, 0, 1, 2, 3}).Draw(t, "opts")}
 		vs := CheckTimeout(c)
 		legal, _, overflow, excluded := classify(c.Header)
 		cl := []string{"timeout"}
@@ -235,14 +264,14 @@ func TestPropTimeoutEnum(t *testing.T) {
 	for length := 1; length <= 8; length++ {
 		for _, u := range []byte("HMSmun") {
 			cands := map[string]bool{
-				strings.Repeat("0", length):                 true,
-				strings.Repeat("9", length):                 true,
-				strings.Repeat("0", length-1) + "1":         true,
-				"1" + strings.Repeat("0", length-1):         true,
-				("2562047" + "00000000")[:length]:           true,
-				("2562048" + "00000000")[:length]:           true,
-				("15372286" + "0")[:length]:                 true,
-				("12345678")[:length]:                       true,
+				strings.Repeat("0", length):         true,
+				strings.Repeat("9", length):         true,
+				strings.Repeat("0", length-1) + "1": true,
+				"1" + strings.Repeat("0", length-1): true,
+				("2562047" + "00000000")[:length]:   true,
+				("2562048" + "00000000")[:length]:   true,
+				("15372286" + "0")[:length]:         true,
+				("12345678")[:length]:               true,
 			}
 			for d := range cands {
 				c := TCase{Header: d + string(u)}
@@ -263,10 +292,11 @@ func TestPropTimeoutEnum(t *testing.T) {
 // (b) cancellation over real connections
 
 type CCase struct {
-	Transport string `json:"transport"` // grpc | http1 | grpcweb1
-	Point     string `json:"point"`     // recv-blocked | send-blocked | between | before-first
-	Mechanism string `json:"mechanism"` // cancel | close
+	Transport string `json:"transport"`  // grpc | http1 | grpcweb1
+	Point     string `json:"point"`      // recv-blocked | send-blocked | between | before-first
+	Mechanism string `json:"mechanism"`  // cancel | close
 	MsgsFirst int    `json:"msgs_first"` // messages exchanged before the cancel point
+	Opts      int    `json:"opts"`       // as TCase.Opts
 	PathSlash bool   `json:"path_slash"` // plain HTTP: the request path carries a trailing '/' (the mux normalises it before routing)
 }
 
@@ -280,7 +310,7 @@ type hstate struct {
 
 func cancelMux(c CCase, hs *hstate) *larking.Mux {
 	w := theWorld()
-	mux, err := larking.NewMux(larking.FilesOption(w.Files))
+	mux, err := larking.NewMux(muxOpts(w, c.Opts)...)
 	if err != nil {
 		panic(err)
 	}
@@ -564,6 +594,7 @@ func TestPropCancel(t *testing.T) {
 			MsgsFirst: rapid.IntRange(1, 3).Draw(t, "msgsFirst"),
 		}
 		c.Mechanism = "close"
+		c.Opts = rapid.SampledFrom([]int{0, 0, 1, 2, 3}).Draw(t, "opts")
 		c.PathSlash = c.Transport == "http1" && rapid.Bool().Draw(t, "pathSlash")
 		if c.Transport == "http1gz" {
 			c.Point = "recv-blocked" // gzip-encoded HttpBody upload cut in the middle of the compressed stream
@@ -582,7 +613,7 @@ func TestPropCancel(t *testing.T) {
 		}
 		key := ""
 		if verified {
-			key = fmt.Sprintf("c|%s|%s|%s|%d|%v", c.Transport, c.Point, c.Mechanism, c.MsgsFirst, c.PathSlash)
+			key = fmt.Sprintf("c|%s|%s|%s|%d|%v|%d", c.Transport, c.Point, c.Mechanism, c.MsgsFirst, c.PathSlash, c.Opts)
 		}
 		evid.Eval(key, "cancel", "transport="+c.Transport, "point="+c.Point)
 		evid.Sample("cancel", c)
